@@ -835,7 +835,20 @@ fn adt_json<'tcx>(cx: &mut Cx<'tcx>, did: DefId, local: bool) -> String {
                     }
                 }
             }
-            let _ = write!(s, ",\"adts\":[{}]}}", adts.join(","));
+            let _ = write!(s, ",\"adts\":[{}]", adts.join(","));
+            if local {
+                let mut at: Vec<String> = Vec::new();
+                #[allow(deprecated)]
+                for a in tcx.get_all_attrs(f.did) {
+                    if let rustc_hir::Attribute::Unparsed(item) = a {
+                        if let Ok(snip) = tcx.sess.source_map().span_to_snippet(item.span) {
+                            at.push(js(&snip));
+                        }
+                    }
+                }
+                let _ = write!(s, ",\"attrs\":[{}]", at.join(","));
+            }
+            s.push('}');
         }
         s.push_str("]}");
     }
